@@ -91,8 +91,11 @@ def table_json(t):
     cons = [cons_json(c) for c in t.constraints
             if not (c.__visit_name__ == "primary_key_constraint" and len(c.columns) == 0)]
     cons.sort(key=lambda c: json.dumps(c, sort_keys=True))
+    # indexes the table owns (derived from Column(index=True) flags): impl.create_table emits them
+    ixs = sorted("%s|%s|%s" % (name_or_none(ix.name), ",".join(getattr(e, "name", str(e)) for e in ix.expressions), bool(ix.unique))
+                 for ix in t.indexes)
     return {"name": t.name, "schema": t.schema, "cols": [col_json(c) for c in t.c], "cons": cons,
-            "comment": t.comment, "extra": extra_str(dict(t.kwargs), t._prefixes, t.info)}
+            "comment": t.comment, "extra": extra_str(dict(t.kwargs), t._prefixes, t.info), "ixs": ixs}
 
 
 TYPE_NAMES = {"unique": "unique", "foreignkey": "foreignkey", "check": "check", "primary": "primary"}
@@ -174,7 +177,7 @@ def view_of(j):
     if k == "dropTable":
         rev = j["rev"] or {}
         t = {"name": j["name"], "schema": j["schema"], "cols": rev.get("cols", []), "cons": rev.get("cons", []),
-             "comment": j["comment"], "extra": j["extra"]}
+             "comment": j["comment"], "extra": j["extra"], "ixs": rev.get("ixs", [])}
         return {**j, "rev": t}
     if k == "dropColumn":
         c = j["rev"] or {"name": j["column"], "ty": "NULLTYPE", "nullable": True, "default": None, "comment": None}
@@ -326,10 +329,29 @@ def gen_leaf(rng, lossy_p=0.12):
         if rng.random() < 0.6:
             op = ops.CreateTableOp.from_table(t)
         else:
+            # op.create_table() style: built directly from Column objects, which may carry the
+            # unique=True / index=True flags (also both), next to explicit UniqueConstraints
             kw = gen_table_kw(rng)
-            op = ops.CreateTableOp(t.name, [sa.Column(c.name, c.type, nullable=c.nullable,
-                                                      primary_key=(i == 0 and kw.get("sqlite_with_rowid") is False))
-                                            for i, c in enumerate(t.c)], schema=t.schema, **kw)
+            flagged = rng.random() < 0.6
+            cols = []
+            for i, c in enumerate(t.c):
+                ckw = {}
+                if flagged and rng.random() < 0.5:
+                    r = rng.random()
+                    if r < 0.5:
+                        ckw["unique"] = True
+                    elif r < 0.75:
+                        ckw["index"] = True
+                    else:
+                        ckw["unique"] = ckw["index"] = True
+                cols.append(sa.Column(c.name, c.type, nullable=c.nullable,
+                                      primary_key=(i == 0 and kw.get("sqlite_with_rowid") is False), **ckw))
+            extra = []
+            if rng.random() < 0.3:
+                names_ = [c.name for c in cols]
+                extra.append(sa.UniqueConstraint(*rng.sample(names_, min(len(names_), rng.choice([1, 2]))),
+                                                 name=rng.choice([None, "uq_d"])))
+            op = ops.CreateTableOp(t.name, cols + extra, schema=t.schema, **kw)
         if lossy:
             op.if_not_exists = True
         return op
@@ -447,6 +469,10 @@ def lossy_features(j):
         out.append("if_exists")
     if k in ("addColumn", "dropColumn") and j["kw"]:
         out.append("column_kw")
+    if k == "createTable" and j["t"].get("ixs"):
+        out.append("column_index_flag")
+    if k == "dropTable" and (j["rev"] or {}).get("ixs"):
+        out.append("column_index_flag")
     if k == "modifyTable":
         for o in j["ops"]:
             out.extend(lossy_features(o))
@@ -459,6 +485,15 @@ def strip_lossy(op):
     o = copy.copy(op)
     if isinstance(o, (ops.CreateTableOp, ops.CreateIndexOp)):
         o.if_not_exists = None
+    if isinstance(o, ops.CreateTableOp) and not o._constraints_included:
+        # drop the index=True flags (F15), keep unique=True and everything else
+        cols = []
+        for c in o.columns:
+            if isinstance(c, sa.Column) and c.index:
+                c = sa.Column(c.name, c.type, nullable=c.nullable, primary_key=c.primary_key, unique=c.unique,
+                              server_default=c.server_default, comment=c.comment)
+            cols.append(c)
+        o.columns = cols
     if isinstance(o, (ops.DropTableOp, ops.DropIndexOp)):
         o.if_exists = None
     if isinstance(o, (ops.AddColumnOp, ops.DropColumnOp)):
